@@ -219,7 +219,55 @@ def rule_r5(chk, facts):
         raise AnalysisBroken('only %d counter adjustments found in the data-definition modules' % n)
 
 
+def rule_r12(chk, facts):
+    chk.rule('C09-R12', 'character packing of string arguments (several characters per word): the position inside the word - a '
+             'local that the character loop both increments and sets back to 0 - starts at 0 for every string argument: it is '
+             'assigned on every path from the start of an argument\'s processing to the character loop', min_instances=1)
+    P = facts.program('asl')
+    n = 0
+    for f in P.all_funcs():
+        if f.entry is None or not (f.unit.name.endswith('pseudo.c') or f.unit.name in ('code7720.c', 'codecp1600.c', 'codemn1610.c', 'codemn2610.c')):
+            continue
+        loops = [(h, s0, f.loop_body(h, s0)) for h, s0 in f.loops()]
+        for (hi, si, bi) in loops:
+            c = f.blocks[hi].get('cond')
+            if c is None or not any(isinstance(m, (list, tuple)) and m and m[0] == 'm' and m[2].endswith('.len') for m in walk(c)):
+                continue
+            par = [x for x in loops if x[0] != hi and bi < x[2]]
+            if not par:
+                continue
+            ho, so, bo = min(par, key=lambda x: len(x[2]))
+            inc, zero = set(), set()
+            for b in bi:
+                for ln, ex in f.blocks[b]['elems']:
+                    for m in walk_own(ex):
+                        if is_incdec(m) and '+' in m[1] and nocast(m[2])[0] == 'l':
+                            inc.add(nocast(m[2]))
+                        if is_assign(m) and m[1] == '=' and nocast(m[2])[0] == 'l' and const_val(nocast(m[3])) == 0:
+                            zero.add(nocast(m[2]))
+                c2 = f.blocks[b].get('cond')
+                if c2 is not None:
+                    for m in walk(c2):
+                        if is_incdec(m) and '+' in m[1] and nocast(m[2])[0] == 'l':
+                            inc.add(nocast(m[2]))
+            for V in sorted(inc & zero):
+                n += 1
+
+                def sets(ex, V=V):
+                    return any(is_assign(m) and m[1] == '=' and nocast(m[2]) == V for m in walk_own(ex))
+                # the loop's own initialisation block precedes its header inside the enclosing iteration
+                ok, w = f.guarded(hi, 0, lambda l: False, sets, start=so)
+                chk.ob('C09-R12', '%s:%s:%s' % (f.unit.name, f.name, V[1]), ok, f.loc(f.blocks[hi]['term'][1] if f.blocks[hi].get('term') else None),
+                       'set for every string' if ok else
+                       '%s keeps the position the previous string argument of the same statement ended at: a string whose '
+                       'length is not a multiple of the characters per word makes the next string start inside the previous '
+                       'word (data "abc",5,"de" corrupts the 5)' % V[1])
+    return n
+
+
 def run(chk, facts, info):
+    carry_pair_rule(chk, facts, 'C09-R11')
+    rule_r12(chk, facts)
     from . import pc_snapshot
     pc_snapshot.run(chk, facts, 'C09-R10', unit_ok=lambda u: u.endswith('pseudo.c') or u in ('asmcode.c', 'asmallg.c'), min_instances=2)
     rule_r1(chk, facts)
